@@ -13,6 +13,11 @@ import ZapVerif.Model.TransLoggerX
 import ZapVerif.Model.TransLockedX
 import ZapVerif.Model.TransSweetenX
 import ZapVerif.Model.TransCaptureX
+import ZapVerif.Model.TransJsonEncX
+import ZapVerif.Model.TransConsoleX
+import ZapVerif.Model.TransSlogX
+import ZapVerif.Model.TransOpenX
+import ZapVerif.Model.Entry
 import ZapVerif.Gen.TransProbe
 /-! `zvdrv CTR`: the interpreter side of the translator's differential test.  An op names a generated table and a
     function, gives arguments and receiver fields; the handler runs the GENERATED term in the GoMini interpreter
@@ -152,6 +157,106 @@ def sweetenPar : ZapVerif.TransSweeten.Par :=
     asStr := fun v => match v with | .list [.int 2, .bytes s] => some s | _ => none,
     cap := fun v => match v with | .list l => l.length | _ => 0 }
 
+/-! the scripted marshalers / fields of harness/cmd/zvh/trans_jsonenc.go: a marshaler is `[ops, errIds]`; an op is
+    `[0,k,v]` AddString, `[1,k]` OpenNamespace, `[2,v]` AppendString, `[3,k,m]` AddObject(k, m), `[4,m]` AppendObject(m),
+    `[5,k,m]` AddArray(k, m), `[6,k,r]` AddReflected(k, r), `[7,r]` AppendReflected(r).  A reflected value `r` is `[]`
+    (nil), `[n]` (an int: the default reflected encoder writes its decimal text and a newline) or `[bytes]` (a value
+    encoding/json refuses: error id 1).  The leaf calls are the model's (`Enc.addKey`, `appendString`); the structural
+    ones are the clauses proved about the source. -/
+section jsonenc
+open ZapVerif.Enc ZapVerif.TransJsonEnc
+
+def jeReflect (re : List Val) (obj : Val) : Bytes × List Val :=
+  match re, obj with
+  | _, .list [.int n] => (ZapVerif.Entry.fmtInt n ++ [10], [])
+  | _, _ => ([], [.int 1])
+
+def jeRefl (sp : Bool) (key : Option Bytes) (r : List Val) (s : St) : St :=
+  if r.isEmpty then
+    { s with buf := (match key with | some k => Enc.addKey sp s.buf k | none => sep sp s.buf) ++ [110, 117, 108, 108] }
+  else
+    let renc := if s.rbuf.isEmpty then [Val.int 1] else s.renc
+    let out := jeReflect renc (.list r)
+    if out.2.isEmpty then
+      { buf := (match key with | some k => Enc.addKey sp s.buf k | none => sep sp s.buf) ++ trimNewline out.1,
+        ns := s.ns, rbuf := [.bytes (trimNewline out.1)], renc := renc }
+    else { s with rbuf := [.bytes out.1], renc := renc }
+
+partial def jeOps (sp : Bool) : List Val → St → St
+  | [], s => s
+  | .list [.int 0, .bytes k, .bytes v] :: r, s => jeOps sp r { s with buf := appendString sp (Enc.addKey sp s.buf k) v }
+  | .list [.int 1, .bytes k] :: r, s => jeOps sp r { s with buf := Enc.addKey sp s.buf k ++ [123], ns := s.ns + 1 }
+  | .list [.int 2, .bytes v] :: r, s => jeOps sp r { s with buf := appendString sp s.buf v }
+  | .list [.int 3, .bytes k, .list [.list ops, _]] :: r, s =>
+      let s1 := jeOps sp ops { s with buf := sep sp (Enc.addKey sp s.buf k) ++ [123], ns := 0 }
+      jeOps sp r { s1 with buf := closeNs (s1.buf ++ [125]) s1.ns, ns := s.ns }
+  | .list [.int 4, .list [.list ops, _]] :: r, s =>
+      let s1 := jeOps sp ops { s with buf := sep sp s.buf ++ [123], ns := 0 }
+      jeOps sp r { s1 with buf := closeNs (s1.buf ++ [125]) s1.ns, ns := s.ns }
+  | .list [.int 5, .bytes k, .list [.list ops, _]] :: r, s =>
+      let s1 := jeOps sp ops { s with buf := sep sp (Enc.addKey sp s.buf k) ++ [91] }
+      jeOps sp r { s1 with buf := s1.buf ++ [93] }
+  | .list [.int 6, .bytes k, .list v] :: r, s => jeOps sp r (jeRefl sp (some k) v s)
+  | .list [.int 7, .list v] :: r, s => jeOps sp r (jeRefl sp none v s)
+  | _ :: r, s => jeOps sp r s
+
+def jeMarshal (m : Val) (sp : Bool) (s : St) : St × List Val :=
+  match m with
+  | .list [.list ops, .list errs] => (jeOps sp ops s, errs)
+  | _ => (s, [])
+
+def jeSub (f : List Val) (txt : Bytes) (sp : Bool) (b : Bytes) : Bytes :=
+  match f with
+  | [.int 1] => appendString sp b txt
+  | _ => b
+
+def jsonEncPar : ZapVerif.TransJsonEnc.Par :=
+  { mo := jeMarshal, ma := jeMarshal,
+    addFields := fun fs sp s => match fs with | .list ops => jeOps sp ops s | _ => s,
+    newRefl := fun _ _ => [.int 1],
+    reflEncode := jeReflect,
+    subLevel := fun f _ => jeSub f [76],
+    subCaller := fun f _ => jeSub f [67],
+    subName := fun f n b => match f, n with
+      | [.int 0], .bytes nm => appendString false b nm      -- FullNameEncoder
+      | [.int 2], _ => appendString false b [78]
+      | _, _ => b,
+    addTime := fun te sp b k t => match te, t with
+      | [.int 1], _ => appendString sp (Enc.addKey sp b k) [84]
+      | _, .int n => sep sp (Enc.addKey sp b k) ++ ZapVerif.Entry.fmtInt n
+      | _, _ => b,
+    timeIsZero := fun t => match t with | .int 0 => true | _ => false,
+    levelString := ZapVerif.Level.stringOf,
+    callerString := fun _ => [102, 46, 103, 111, 58, 55] }   -- "f.go:7"
+
+def conCol (f : List Val) (txt : Bytes) (es : List Val) : List Val :=
+  match f with
+  | [.int 1] => es ++ [.bytes txt]
+  | _ => es
+
+def consolePar : ZapVerif.TransConsole.Par :=
+  { colTime := fun f _ => conCol f [84], colLevel := fun f _ => conCol f [76], colCaller := fun f _ => conCol f [67],
+    colName := fun f n es => match f, n with
+      | [.int 0], .bytes nm => es ++ [.bytes nm]
+      | [.int 2], _ => es ++ [.bytes [78]]
+      | _, _ => es,
+    text := fun v => match v with | .bytes t => t | _ => [],
+    timeIsZero := fun t => match t with | .int 0 => true | _ => false,
+    addFields := fun fs sp s => match fs with | .list ops => jeOps sp ops s | _ => s }
+end jsonenc
+
+/-- the scripted registry of harness/cmd/zvh/trans_open.go: "zvo://…" opens a sink named by its path, "zvf://…" fails
+    with an error named by its path; `strings.ToLower` on ASCII -/
+def openPar : ZapVerif.TransOpen.Par :=
+  { newSink := fun p => match p with
+      | .bytes (122 :: 118 :: 111 :: _) => ([p], [])
+      | .bytes (122 :: 118 :: 102 :: _) => ([], [p])
+      | _ => ([], [.int 0]),
+    openFile := fun _ => ([], []), isAbs := fun _ => false, parse := fun _ => (.list [], []), port := fun _ => [],
+    hostname := fun _ => [], lookup := fun _ _ => (.list [], false), factory := fun _ _ => ([], []), levelOK := fun _ => true,
+    newEncoder := fun _ _ => ([], []), keys := fun _ => [], mapGet := fun _ _ => .list [], sort := id,
+    toLower := ZapVerif.OpenBuild.lowerBytes }
+
 def tables : List (String × (Env → Ctx)) := [
   ("TransProbe", fun _ => { ext := probeExt, funs := ZapVerif.Gen.TransProbe.funs }),
   ("TransJsonSep", fun _ => ZapVerif.TransJsonSep.X),
@@ -162,6 +267,11 @@ def tables : List (String × (Env → Ctx)) := [
   ("TransCE", fun _ => ZapVerif.TransCE.X),
   ("TransCEAdd", fun _ => ZapVerif.TransCEAdd.X),
   ("TransCapture", fun e => ZapVerif.TransCapture.X ⟨match e.get "#st" with | some (.list l) => l | _ => []⟩),
+  ("TransSlog", fun _ => ZapVerif.TransSlog.X
+      { coreWith := fun c fs => .list [c, fs], check := fun _ _ => .list [], frame := fun _ => (.list [], false), take := fun _ => [] }),
+  ("TransConsole", fun _ => ZapVerif.TransConsole.X consolePar),
+  ("TransOpen", fun _ => ZapVerif.TransOpen.X openPar),
+  ("TransJsonEnc", fun _ => ZapVerif.TransJsonEnc.X jsonEncPar),
   ("TransSweeten", fun _ => ZapVerif.TransSweeten.X sweetenPar),
   ("TransLocked", fun _ => ZapVerif.TransLocked.X lockedPar),
   ("TransLogger", fun e => ZapVerif.TransLogger.X (loggerPar e)),
@@ -185,6 +295,9 @@ def handle (op : Json) : R Json := do
   | .done rs fl =>
     let hide := (arrD op "hide").toList.filterMap fun j => (j.getStr?.toOption).map fun s => s.toUTF8.toList
     let drop := (arrD op "drop").toList.filterMap fun j => j.getStr?.toOption
+    let blank := (arrD op "blank").toList.filterMap fun j => j.getNat?.toOption
+    let rs := rs.zipIdx.map fun (v, i) =>
+      if blank.contains i then (match v with | .list (.bytes _ :: r) => .list (.bytes [] :: r) | v => v) else v
     return obj [("res", Json.arr (rs.map jval).toArray), ("flds", jenv ((hideEv hide fl).filter fun p => !drop.contains p.1))]
   | .panic p => return obj [("panic", Json.str (panicName p))]
   | .stuck w => return obj [("stuck", Json.str w)]
